@@ -1534,6 +1534,11 @@ func (e *E) Drift() {
 func Run(r *sim.R, prop string, maxReads int) {
 	e := &E{R: r, Prop: prop}
 	r.Order = r.T.Weighted([]int{3, 2, 2}, "order-policy")
+	if (prop == "C02" || prop == "C08") && r.T.Chance(1, 16, "env-configs-with-references") {
+		r.NextStep()
+		e.envRefs()
+		return
+	}
 	e.Setup()
 	n := 1 + r.T.Choose(maxReads, "n-reads")
 	for i := 0; i < n; i++ {
